@@ -25,6 +25,8 @@ CONCRETISATIONS = [  # (name, scale, offset)
     ("shifted", 1.0, 1e6),
     ("decimal_shifted", 0.1, 1000.0),
     ("third", 1.0 / 3.0, 0.0),
+    ("sub-eps", 2.0 ** -60, 0.0),      # a box narrower than machine epsilon in absolute terms (lower < upper all the same)
+    ("1e-300", 1e-300, 0.0),
 ]
 
 
